@@ -361,28 +361,6 @@ func totalityEntries(w *World, r *Report, specs [][3]string) []entrySpec {
 	return entries
 }
 
-func init() {
-	register("X15", func(w *World, r *Report, tier string) {
-		sa := runEntries(w, r, totalityEntries(w, r, [][3]string{{"nasType", "QoSRules.UnmarshalBinary", "recv"}, {"nasType", "QoSFlowDescs.UnmarshalBinary", "recv"}}))
-		sa.report(r, "X15")
-	})
-	register("X18", func(w *World, r *Report, tier string) {
-		sa := runEntries(w, r, totalityEntries(w, r, [][3]string{{"uePolicyContainer", "UePolDeliverySer.UePolDeliverySerDecode", "recv"}, {"uePolicyContainer", "UEPolicySectionManagementList.UnmarshalBinary", "recv"}, {"uePolicyContainer", "UEPolicySectionManagementResult.UnmarshalBinary", "recv"}}))
-		sa.report(r, "X18")
-	})
-	register("X16", func(w *World, r *Report, tier string) {
-		sa := runEntries(w, r, totalityEntries(w, r, [][3]string{{"nasConvert", "ProtocolConfigurationOptions.UnMarshal", "recv"}, {"nasConvert", "PSIToBooleanArray", ""}, {"nasConvert", "PSIToBuf", ""}, {"nasConvert", "PDUSessionReactivationResultErrorCauseToBuf", ""}}))
-		sa.report(r, "X16")
-	})
-}
-
-func init() {
-	register("X08", func(w *World, r *Report, tier string) {
-		sa := runEntries(w, r, securityEntries(w, r))
-		sa.report(r, "X08")
-	})
-}
-
 // securityEntries: NASEncrypt / NASMacCalculate with arbitrary parameters and a payload of
 // arbitrary content whose length is at most 2^24 octets (so that 8*len fits the uint32 bit length).
 func securityEntries(w *World, r *Report) []entrySpec {
